@@ -11,8 +11,12 @@
   (no hypotheses); ParseCSeqVal and ParseFLine (for objects that are new or were returned by an earlier call
   on a prefix of the buffer: `csOK`, `flOK`, re-established at every suspension, so the schedule theorem
   applies to every chunk schedule starting from a new object).
+  ParseNameAddrPVal for every header kind (= ParseFromVal / ParseOneContact / ParseOnePAI; 33 states): offset,
+  verdict and object equal — the object exactly after OK / MoreBytes / MoreValues and up to the unexported
+  saved restart offset `soffs` after an error verdict (the code leaves `soffs` at its entry value on the error
+  exits, and the entry value depends on where the previous chunk ended; no exported accessor reads it).
   NOT yet proved (covered by the correspondence + oracle checks only): ParseHdrLine, ParseHeaders,
-  ParseNameAddrPVal / ParseFromVal / ParseOneContact / ParseOnePAI, ParseAllContactValues,
+  ParseAllContactValues,
   ParseAllPAIValues, ParseTokenParam, ParseAllURIParams, ParseAllURIHdrs. They are instances of
   the same generic theorems (`runLoop_resume` + one restart lemma per suspension site); the theorem below
   named `all_parsers_partial` states the full property with exactly those missing pieces as hypotheses.
@@ -22,6 +26,7 @@ import Sipsp.Proofs.UInt
 import Sipsp.Proofs.SkipQuoted
 import Sipsp.Proofs.Schedule
 import Sipsp.Proofs.FLine
+import Sipsp.Proofs.NameAddrL2
 import Sipsp.Model.Msg
 
 namespace Sipsp.C02
@@ -54,6 +59,30 @@ theorem resume_fline (b s : Buf) (o : Nat) (pl : PFLine) (ho : o ≤ b.size) (ho
     (hfit : b.size ≤ 65535) {o' : Nat} {pl' : PFLine} (h : parseFLine b o pl = (o', Err.moreBytes, pl')) :
     parseFLine (b ++ s) o' pl' = parseFLine (b ++ s) o pl ∧ flOK pl' ∧ o' ≤ b.size :=
   parseFLine_resume b s o pl ho hok hfit h
+
+/-- ParseNameAddrPVal (header kind `t`): one-step law up to the saved restart offset -/
+theorem resume_nameaddr (t : Nat) : ResumableO (parseNameAddrPVal t) naOK PFromBody.obs := by
+  intro b s o st o' st' hI h
+  obtain ⟨r, k, h1, h2, h3⟩ := parseNameAddrPVal_resume t b s o st hI h
+  refine ⟨?_, h3⟩
+  rw [h1, h2]
+  exact ⟨rfl, rfl, naExit_obs _ _ _ _⟩
+
+/-- … and exactly, whenever the verdict on the extended buffer is one after which parsing goes on -/
+theorem resume_nameaddr_exact (t : Nat) (b s : Buf) (o : Nat) (pf : PFromBody) (hok : naOK b o pf)
+    {o' : Nat} {pf' : PFromBody} (h : parseNameAddrPVal t b o pf = (o', Err.moreBytes, pf'))
+    (hv : (parseNameAddrPVal t (b ++ s) o pf).2.1 = .ok ∨ (parseNameAddrPVal t (b ++ s) o pf).2.1 = .moreBytes ∨
+          (parseNameAddrPVal t (b ++ s) o pf).2.1 = .moreValues) :
+    parseNameAddrPVal t (b ++ s) o' pf' = parseNameAddrPVal t (b ++ s) o pf := by
+  obtain ⟨r, k, h1, h2, _⟩ := parseNameAddrPVal_resume t b s o pf hok h
+  rw [h1] at hv
+  rw [h1, h2, naExit_nonerr k pf.soffs r.2.1 r.2.2 hv]
+
+/-- every chunk schedule, name-addr values of every header kind, from a new object -/
+theorem schedule_nameaddr (t : Nat) (o : Nat) (l : List Buf) (hg : Growing l) (h0 : ∀ b ∈ l.head?, o ≤ b.size) :
+    ResEq PFromBody.obs (resumeRun (parseNameAddrPVal t) o {} l) (oneShotRun (parseNameAddrPVal t) o {} l) :=
+  resumeRun_eq_oneShotO (parseNameAddrPVal t) naOK PFromBody.obs (resume_nameaddr t) o {} l hg
+    (fun b hb => Or.inr ⟨h0 b hb, Nat.zero_le _, Nat.zero_le _⟩)
 
 /-- SkipQuoted as a parser over the trivial object -/
 def skipQuotedP : Parser Unit := fun b o _ => ((skipQuoted b o).1, (skipQuoted b o).2, ())
